@@ -6,6 +6,7 @@ use std::num::NonZeroUsize;
 
 use sfs_core::array::Array;
 use sfs_core::input::genotype::reader::Builder as GenotypeBuilder;
+use sfs_core::input::genotype::{self, Reader as _};
 use sfs_core::input::site::reader::builder::Builder as SiteBuilder;
 use sfs_core::input::{ReadStatus, Site};
 use sfs_core::spectrum::io::{write, Format};
@@ -142,6 +143,39 @@ pub fn run(toks: &[&str], out: &mut String) {
                     ReadStatus::Read(Site::Standard(c)) => out.push_str(&format!(" S{}", fmt_list(&c.0))),
                     ReadStatus::Read(Site::Projected(_)) => out.push_str(" P"),
                     ReadStatus::Read(Site::InsufficientData) => out.push_str(" I"),
+                    ReadStatus::Error(_) => {
+                        out.push_str(" E");
+                        break;
+                    }
+                    ReadStatus::Done => {
+                        out.push_str(" D");
+                        break;
+                    }
+                }
+            }
+        }
+        // genos HEX : the genotype reader (VCF or BCF, detected) on in-memory bytes; every record's per-column classification
+        "genos" => {
+            let r = io::Cursor::new(unhex(toks[1]));
+            let mut g = match GenotypeBuilder::default().verif_build_from_reader(r) {
+                Ok(g) => g,
+                Err(_) => return out.push_str("ERR:build"),
+            };
+            out.push_str("OK");
+            loop {
+                match g.read_genotypes() {
+                    ReadStatus::Read(v) => {
+                        let cls: Vec<String> = v
+                            .iter()
+                            .map(|r| match r {
+                                genotype::Result::Genotype(g) => format!("called{}", *g as u8),
+                                genotype::Result::Skipped(genotype::Skipped::Missing) => "missing".to_string(),
+                                genotype::Result::Skipped(genotype::Skipped::Multiallelic) => "multiallelic".to_string(),
+                                genotype::Result::Error(_) => "ploidy".to_string(),
+                            })
+                            .collect();
+                        out.push_str(&format!(" {}", if cls.is_empty() { "-".to_string() } else { cls.join(",") }));
+                    }
                     ReadStatus::Error(_) => {
                         out.push_str(" E");
                         break;
